@@ -2802,7 +2802,7 @@ static void do_process(const int *rd, int nrd, const int *wr, int nwr,
       FD_SET(FD_BASE + wr[i], &w);
     }
     ares_process(G.channel, &r, &w);
-    ev("PROCDONE");
+    ev("PROCEND");
   } else {
     ares_fd_events_t *evs = xmalloc(sizeof(*evs) * (size_t)(nrd + nwr + 1));
     size_t            n   = 0;
@@ -2830,7 +2830,7 @@ static void do_process(const int *rd, int nrd, const int *wr, int nwr,
     }
     st = ares_process_fds(G.channel, n ? evs : NULL, n, ARES_PROCESS_FLAG_NONE);
     free(evs);
-    ev("PROCDONE rc=%d", (int)st);
+    ev("PROCEND rc=%d", (int)st);
   }
 }
 
